@@ -291,7 +291,13 @@ def execute(trace: dict) -> Outcome:
     if trace.get("frozen"):
         probes["frozen_param_world"] += 1
     v = None
-    if sim.outcome != "ok":
+    from .c06 import natural_world_failure
+
+    if sim.outcome == "rank_failed" and natural_world_failure(trace, sim, outs):
+        # a diverged trajectory (parameters overflowing a 16-bit communication dtype, then NaN factor matrices): the step
+        # raises as documented; the construction-time clauses below are still checked
+        probes["ended_by_divergence"] += 1
+    elif sim.outcome != "ok":
         r = next((r for r in sim.ranks if r.exc is not None), None)
         v = Violation(ID, "unexpected_exception", -1, {"world_kind": w["kind"], "outcome": sim.outcome, "exc_type": type(r.exc).__name__ if r else None, "exc": str(r.exc)[:300] if r else None, "tb": r.exc_tb[-600:] if r else None})
     if v is None:
